@@ -13,8 +13,21 @@
 //     Every call logs Begin/End with a deep digest of all inputs (every proof slice, spare capacity, unexported
 //     fields) and a digest of the result; audits are logged while nothing runs.  TLC validates the log against
 //     PurityTrace.  The per-transaction verdict is logged under the key of the block verdict.
-//  3. Copy operations (Copy on all element types, V2Transaction.DeepCopy) are probed by address comparison and
-//     by mutating every scalar reachable from the copy.
+//  3. Every value the library's copy and decode operations hand back — Copy/Share/Move of every element kind,
+//     V2Transaction.DeepCopy (every resolution kind; the storage proof's history proof), the binary decoders (block
+//     through the multiproof form V2Block / V2BlockData / V2TransactionsMultiproof, plain DecodeFrom of transactions,
+//     v1 block, supplement, state) and the JSON decoders — is probed by address: no slice reachable from it may
+//     share memory UP TO CAPACITY with a slice of the original, with the decoder's input, or with another slice of the
+//     same value (spare capacity running into the neighbour's memory); copies are also probed by mutating every
+//     scalar reachable from them.  Memory behind a pointee or interface box that copy and original both hold
+//     (NewFoundationAddress, the renewal struct, policies) is information; behind a pointee of its own the copy must
+//     own everything.
+//     3b. "Obtained how" under the one writing operation (Purity!Mutate, update.go): the element proofs of every valid
+//     block are held in copies obtained differently (independent, multiproof-decoded, plainly decoded, JSON,
+//     DeepCopy/Copy, Share()d-then-copied) and each copy is brought up to date with UpdateElementProof (the block's
+//     own update: in-place rewriting; an empty next block: tree growth, after which the real accumulator validates
+//     every copy's proofs).  PurityTrace demands: same content + same update => same content, and no other cell
+//     (neighbouring element, same element of another copy, the source) changes.
 //  4. The harness is built with -race; the check body runs in a child process so that a race report becomes a
 //     violation (key race/<first frame inside core>) instead of a crash.
 package main
@@ -170,6 +183,8 @@ type totals struct {
 	foreign                              map[string]int
 	keyRuns                              map[string]int
 	applyGuardNote                       string
+	upd                                  updStats
+	fixedRun, fixedOK                    int
 }
 
 type env struct {
@@ -222,12 +237,14 @@ func advance(sim *chain.Sim, st chain.Step) (err error) {
 	return nil
 }
 
-func (e *env) runBehaviour(shape string, p chain.Params, beh *chain.Behaviour) {
+// runBehaviour returns the number of steps on which specification and code agreed.
+func (e *env) runBehaviour(shape string, p chain.Params, beh *chain.Behaviour) (agreed int) {
 	sim := chain.NewSim(p)
 	t := e.t
 	local := 0
 	for i, st := range beh.Steps {
 		local++
+		agreed = i
 		if st.Op == "revert" {
 			if len(sim.Chain) == 0 {
 				e.c.Infra("behaviour %s: revert below genesis", beh.Hash)
@@ -240,6 +257,7 @@ func (e *env) runBehaviour(shape string, p chain.Params, beh *chain.Behaviour) {
 			t.mu.Lock()
 			t.reverts++
 			t.mu.Unlock()
+			agreed = i + 1
 			continue
 		}
 		in, ctx, err := build(sim, st)
@@ -261,14 +279,28 @@ func (e *env) runBehaviour(shape string, p chain.Params, beh *chain.Behaviour) {
 		}
 		verdict := ""
 		if !skip {
+			t0 := time.Now()
 			cs, err := runCase(e.rec, in, st.Verdict == "accept", g, rand.New(rand.NewSource(e.c.Seed*1_000_003+int64(n))), ci)
+			nsCase.Add(int64(time.Since(t0)))
 			if err != nil {
 				e.c.Infra("behaviour %s step %d: %v", beh.Hash, i, err)
 				return
 			}
-			probeReal(e.cb, in)
+			t1 := time.Now()
+			probeReal(e.cb, in, ci)
+			nsProbe.Add(int64(time.Since(t1)))
 			verdict = cs.verdict
 			t.addCase(ci, cs, st)
+			if st.Verdict == "accept" && verdict == "ok" {
+				t2 := time.Now()
+				us, err := runUpdates(e.rec, sim, in, key, ci, e.cb)
+				nsUpdate.Add(int64(time.Since(t2)))
+				if err != nil {
+					e.c.Infra("behaviour %s step %d: %v", beh.Hash, i, err)
+					return
+				}
+				t.addUpd(us)
+			}
 		} else {
 			t.mu.Lock()
 			t.skipped++
@@ -302,11 +334,13 @@ func (e *env) runBehaviour(shape string, p chain.Params, beh *chain.Behaviour) {
 				break
 			}
 		}
+		agreed = i + 1
 	}
 	t.mu.Lock()
 	t.behaviours++
 	t.steps += local
 	t.mu.Unlock()
+	return agreed
 }
 
 func (t *totals) note(k, detail string) {
@@ -316,6 +350,31 @@ func (t *totals) note(k, detail string) {
 	}
 	t.foreign[k]++
 	t.mu.Unlock()
+}
+
+func (t *totals) addUpd(us updStats) {
+	t.mu.Lock()
+	defer t.mu.Unlock()
+	if t.upd.variants == nil {
+		t.upd.variants = map[string]int{}
+	}
+	t.upd.runs += us.runs
+	t.upd.updates += us.updates
+	t.upd.cells += us.cells
+	t.upd.grown += us.grown
+	t.upd.rewritten += us.rewritten
+	t.upd.validated += us.validated
+	t.upd.richDecoded += us.richDecoded
+	t.upd.storageProofCopied += us.storageProofCopied
+	t.upd.staleAfterUpdate += us.staleAfterUpdate
+	t.upd.sharedRefused += us.sharedRefused
+	t.upd.sharedUpdated += us.sharedUpdated
+	for k, v := range us.variants {
+		t.upd.variants[k] += v
+	}
+	if us.note != "" && t.upd.note == "" {
+		t.upd.note = us.note
+	}
 }
 
 func (t *totals) addCase(ci *caseInfo, cs caseStats, st chain.Step) {
@@ -402,6 +461,9 @@ func (e *env) runShape(name string, num, depth int) {
 	}
 }
 
+// time spent (summed over the 8 behaviour goroutines) in the concurrency cases, the address probes and the update experiments
+var nsCase, nsProbe, nsUpdate atomic.Int64
+
 var reCov = regexp.MustCompile(`<(Do\w+) line [^>]*>: (\d+):(\d+)`)
 
 func work() {
@@ -419,15 +481,16 @@ func work() {
 		replay(c)
 		return
 	}
-	c.Rule("Cases: every block (with its supplement and parent state) of TLC-simulated Ledger behaviours on three network shapes — valid blocks and blocks ending in a defective transaction of the families unbalanced, auth, reuse, intx, timing, revision, proof, formation; reverts and re-applies included — taken before anything has validated it. Per case 6 entry points (validate, per-transaction path, element proofs, apply, revert, encode) x 5 memories (original twice, decoded via multiproof, Share()d proofs, DeepCopy/Copy, JSON) run from G goroutines (G cycles through 1, 2, 8, 32), under the race detector. evaluations = calls executed and logged; distinct_nontrivial = distinct keys <<function, content hash of inputs>> that were called at least twice (the agreement clause was exercised), from different goroutines or different copies.")
+	c.Rule("Cases: every block (with its supplement and parent state) of TLC-simulated Ledger behaviours on three network shapes — valid blocks and blocks ending in a defective transaction of the families unbalanced, auth, reuse, intx, timing, revision, proof, formation; reverts and re-applies included — taken before anything has validated it. Per case 6 entry points (validate, per-transaction path, element proofs, apply, revert, encode) x 5 memories (original twice, decoded via multiproof, Share()d proofs, DeepCopy/Copy, JSON) run from G goroutines (G cycles through 1, 2, 8, 32), under the race detector. For every valid block with non-ephemeral elements additionally 2 update experiments (the block's own update; an empty next block's) x 6 copies of its element proofs obtained differently (independent allocation, multiproof decode, plain decode, JSON, DeepCopy/Copy, Share()d then copied): one UpdateElementProof call per element and copy (logged as M with audits of the neighbouring cells, the other copies and the source), then ValidateTransactionElements / leaf membership of every updated copy. Four fixed behaviours (v2 storage proof among payments, renewal, expiration, v1 contract life cycle) run besides the drawn ones. evaluations = calls executed and logged (entry point calls + UpdateElementProof calls + validations after update); distinct_nontrivial = distinct keys <<function, content hash of inputs>> that were called at least twice (the agreement clause was exercised), from different goroutines or different copies. The address probes of copy/decode results are counted in coverage (copy_operations_probed), not in evaluations.")
 	c.Assume("the digest (reflection walk over every field, slice up to capacity, pointer and interface; sha256) changes whenever memory reachable from the inputs changes")
 	c.Assume("data races are found by the Go race detector while the trace is recorded, not by the model")
 	c.Assume("honest v1 supplements (chain harness store)")
+	c.Assume("slice memory is compared by address range [ptr, ptr+cap*size) as reported by reflect; memory reached only through unsafe tricks is not seen")
 
 	// 1. design level
-	mcCfg := "PurityMC.cfg"
+	mcCfg := "PurityMC1.cfg"
 	if c.Thorough {
-		mcCfg = "PurityMC3.cfg"
+		mcCfg = "PurityMC.cfg"
 	}
 	res := c.MustTLC(vlib.TLCOpts{SpecDirs: []string{"pure"}, Module: "PurityMC", Config: mcCfg, Coverage: true, Workers: 8})
 	acts := map[string]int64{}
@@ -439,7 +502,7 @@ func work() {
 	}
 	c.Cov("purity_mc_states", res.Distinct)
 	c.Cov("purity_mc_actions", acts)
-	for _, a := range []string{"DoBegin", "DoEnd", "DoOther", "DoMutateOwn", "DoMutateElse", "DoAliased", "DoAudit"} {
+	for _, a := range []string{"DoBegin", "DoEnd", "DoOther", "DoMutateOwn", "DoMutateElse", "DoAliased", "DoAudit", "DoMutate", "DoMutateDiverge", "DoMutateSpill"} {
 		if acts[a] == 0 {
 			c.Infra("vacuity: action %s of PurityMC never taken", a)
 		}
@@ -453,16 +516,22 @@ func work() {
 	// 3. the real code under concurrency
 	num, depth := c.Pick(50, 1000), 56
 	t0 := time.Now()
+	e.runFixed()
 	for _, shape := range []string{"v1only", "mixed", "v2only"} {
 		e.runShape(shape, num, depth)
 	}
 	c.Cov("go_wall_s", time.Since(t0).Seconds())
+	c.Cov("go_goroutine_seconds_cases_probes_updates", []float64{time.Duration(nsCase.Load()).Seconds(), time.Duration(nsProbe.Load()).Seconds(), time.Duration(nsUpdate.Load()).Seconds()})
 	reportCopies(c, e.cb)
 
 	// 4. TLC validates the log
 	lines := fileByCase(e.rec.events)
+	t1 := time.Now()
 	validateTrace(c, lines)
+	c.Cov("trace_validation_wall_s", time.Since(t1).Seconds())
+	t1 = time.Now()
 	selfTest(c, lines)
+	c.Cov("selftest_wall_s", time.Since(t1).Seconds())
 
 	// evidence and vacuity
 	t := e.t
@@ -475,6 +544,8 @@ func work() {
 			open[ev.ID] = ev.Fn + "/" + ev.Case
 		case "E":
 			keys[open[ev.ID]]++
+		case "M":
+			keys[ev.Fn+"/"+ev.Case]++
 		}
 	}
 	nontriv := 0
@@ -483,7 +554,40 @@ func work() {
 			nontriv++
 		}
 	}
-	c.Count(int64(t.calls), int64(nontriv))
+	c.Count(int64(t.calls+t.upd.updates+t.upd.validated), int64(nontriv))
+	c.Cov("fixed_behaviours_accepted", fmt.Sprintf("%d of %d", t.fixedOK, t.fixedRun))
+	c.Cov("update_experiments", t.upd.runs)
+	c.Cov("update_calls_UpdateElementProof", t.upd.updates)
+	c.Cov("update_cells_watched", t.upd.cells)
+	c.Cov("update_proofs_grown_by_append", t.upd.grown)
+	c.Cov("update_proofs_rewritten_in_place", t.upd.rewritten)
+	c.Cov("update_copies", t.upd.variants)
+	c.Cov("update_validations_after_update", t.upd.validated)
+	c.Cov("update_experiments_multiproof_decoded_copy_with_2_or_more_elements", t.upd.richDecoded)
+	c.Cov("update_experiments_DeepCopy_of_storage_proof_with_history_proof", t.upd.storageProofCopied)
+	c.Cov("update_reference_copy_not_valid_after_update_information_only", t.upd.staleAfterUpdate)
+	c.Cov("update_of_a_Share()d_view_refused_by_the_library_guard_information_only", t.upd.sharedRefused)
+	c.Cov("update_of_a_Share()d_view_carried_out_information_only", t.upd.sharedUpdated)
+	if t.upd.note != "" {
+		c.Cov("update_note", t.upd.note)
+	}
+	if t.upd.runs == 0 || t.upd.grown == 0 || t.upd.rewritten == 0 {
+		c.Infra("vacuity: update experiments %d, proofs grown by append %d, rewritten in place %d", t.upd.runs, t.upd.grown, t.upd.rewritten)
+	}
+	for _, k := range []string{"independent", "decoded", "plain", "json", "copied", "shared", "source"} {
+		if t.upd.variants[k] == 0 {
+			c.Infra("vacuity: no update experiment had a %s copy", k)
+		}
+	}
+	if t.upd.richDecoded == 0 {
+		c.Infra("vacuity: no update experiment on a multiproof-decoded copy with >= 2 non-ephemeral elements")
+	}
+	if t.upd.storageProofCopied == 0 {
+		c.Infra("vacuity: no update experiment on a DeepCopy of a storage proof transaction with a history proof")
+	}
+	if t.upd.validated == 0 {
+		c.Infra("vacuity: updated element proofs were never validated by the real accumulator")
+	}
 	c.Cov("behaviours", t.behaviours)
 	c.Cov("steps", t.steps)
 	c.Cov("cases", t.cases)
@@ -572,19 +676,36 @@ func reportCopies(c *vlib.Ctx, cb *copyBook) {
 	cb.mu.Lock()
 	defer cb.mu.Unlock()
 	var direct, via []string
-	for _, f := range cb.found {
+	keys := make([]string, 0, len(cb.found))
+	for k := range cb.found {
+		keys = append(keys, k)
+	}
+	sort.Strings(keys)
+	for _, k := range keys {
+		f := cb.found[k]
 		s := f.Op + ": " + f.Path + " (" + f.How + ")"
-		if strings.Contains(f.Op, "by contract") {
+		if f.Class != "shares" {
+			s = f.Class + ": " + s
+		}
+		if (f.Class == "shares" && strings.Contains(f.Op, "by contract")) || !f.Direct {
 			via = append(via, s)
 			continue
 		}
-		if f.Direct {
-			direct = append(direct, s)
-			c.Violation("copy-shares-slice/"+f.Op+"/"+f.Path,
-				fmt.Sprintf("the value returned by %s shares the backing array of %s with its original (seen by %s): writing through one is visible in the other", f.Op, f.Path, f.How),
-				map[string]any{"kind": "copy", "op": f.Op, "path": f.Path})
-		} else {
-			via = append(via, s)
+		direct = append(direct, s)
+		payload := map[string]any{"kind": "copy", "op": f.Op, "path": f.Path, "class": f.Class, "detail": f.Detail}
+		if f.ci != nil {
+			payload["kind"] = "case"
+			payload["key"] = f.key()
+			payload["params"], payload["behaviour"], payload["g"], payload["shape"] = f.ci.params, f.ci.beh, f.ci.g, f.ci.shape
+		}
+		switch f.Class {
+		case "overlap":
+			c.Violation(f.key(), fmt.Sprintf("in the value returned by %s two slices overlap in memory: %s. Values that were obtained this way do not behave like independently allocated ones under in-place updates (UpdateElementProof)", f.Op, f.Detail), payload)
+		case "buffer":
+			c.Violation(f.key(), fmt.Sprintf("the value returned by %s keeps a slice (%s) inside the buffer it was decoded from", f.Op, f.Path), payload)
+		default:
+			c.Violation(f.key(),
+				fmt.Sprintf("the value returned by %s shares the backing array of %s with its original (seen by %s): writing through one is visible in the other", f.Op, f.Path, f.How), payload)
 		}
 	}
 	sort.Strings(direct)
@@ -593,10 +714,27 @@ func reportCopies(c *vlib.Ctx, cb *copyBook) {
 	c.Cov("copy_operations_probed_by_mutation", cb.mutated)
 	c.Cov("copy_slice_sharing", direct)
 	c.Cov("copy_pointer_sharing_information_only", via)
-	for _, op := range []string{"StateElement.Copy", "ChainIndexElement.Copy", "SiacoinElement.Copy", "SiafundElement.Copy", "FileContractElement.Copy",
-		"V2FileContractElement.Copy", "AttestationElement.Copy", "V2Transaction.DeepCopy"} {
-		if cb.probed[op] == 0 {
+	c.Cov("probed_values_by_class", cb.rich)
+	ops := []string{"V2Transaction.DeepCopy", "V2Block.DecodeFrom", "V2BlockData.DecodeFrom", "V2TransactionsMultiproof.DecodeFrom", "V2Transaction.DecodeFrom",
+		"V1Block.DecodeFrom", "V1BlockSupplement.DecodeFrom", "State.DecodeFrom", "Block.UnmarshalJSON", "V1BlockSupplement.UnmarshalJSON", "V2Transaction.UnmarshalJSON"}
+	for _, k := range elementKinds {
+		ops = append(ops, k+".Copy", k+".Share (shallow by contract)", k+".Move (shallow by contract)")
+	}
+	for _, op := range ops {
+		if cb.probed[op] == 0 && !cb.onlyElements {
 			c.Infra("vacuity: %s never probed", op)
+		}
+	}
+	if cb.onlyElements {
+		return
+	}
+	for _, k := range []string{"DeepCopy of a storage proof transaction with a history proof (synthetic)", "DeepCopy of a storage proof transaction with a history proof (simulated chain)",
+		"DeepCopy of a renewal transaction (simulated chain)", "DeepCopy of an expiration transaction (simulated chain)",
+		"V2Block.DecodeFrom of a value with >= 2 non-ephemeral elements", "V2TransactionsMultiproof.DecodeFrom of a value with >= 2 non-ephemeral elements",
+		"V2BlockData.DecodeFrom of a value with >= 2 non-ephemeral elements", "V1BlockSupplement.DecodeFrom of a value with >= 2 non-ephemeral elements",
+		"Block.UnmarshalJSON of a value with >= 2 non-ephemeral elements"} {
+		if cb.rich[k] == 0 {
+			c.Infra("vacuity: never probed: %s", k)
 		}
 	}
 }
@@ -604,7 +742,7 @@ func reportCopies(c *vlib.Ctx, cb *copyBook) {
 // ---------------------------------------------------------------------------
 // trace validation
 
-const maxLinesPerRun = 120000
+const maxLinesPerRun = 200000
 
 // tlcRejects runs TLC on one file of the trace.
 func tlcRejects(c *vlib.Ctx, lines []Event, count bool) ([]reject, error) {
@@ -768,9 +906,13 @@ func describe(lines []Event, r reject) described {
 		}
 	}
 	switch ev.Ev {
-	case "B", "E":
+	case "B", "E", "M":
 		info = ev.call
 	case "A":
+		if ev.call != nil { // update experiment: the harness says which cell this is and which update preceded
+			info = ev.call
+			break
+		}
 		// the last call that ended on this region
 		for i := r.Line - 2; i > s; i-- {
 			if lines[i].Ev == "E" && begin[lines[i].ID].Mem == ev.Mem {
@@ -800,6 +942,36 @@ func describe(lines []Event, r reject) described {
 			}
 		}
 		return ""
+	}
+	if info != nil && strings.HasPrefix(info.fn, "update-") && (ev.Ev == "A" || ev.Ev == "M") {
+		switch name {
+		case "input-changed-when-quiet", "cell-changed-before-update":
+			switch {
+			case info.updKind == "":
+				d.key = "cell-changed-while-copies-were-built/" + info.kind
+				d.what = fmt.Sprintf("an element proof of the %s copy changed while the other copies were being built", info.kind)
+			case info.updKind == info.kind:
+				d.key = fmt.Sprintf("update-modifies-neighbour/%s/%s", info.fn, info.kind)
+				d.what = fmt.Sprintf("UpdateElementProof on element %d (%s) of the %s copy of the block's elements changed the proof memory of element %d of the same copy: the proofs of a value obtained this way are not independent memory, so the state reached depends on how the block was obtained", info.updCell, info.note, info.kind, info.cell)
+			default:
+				d.key = fmt.Sprintf("update-modifies-other-copy/%s/%s->%s", info.fn, info.updKind, info.kind)
+				d.what = fmt.Sprintf("bringing the element proofs of the %s copy up to date (UpdateElementProof) changed element %d of the %s copy: the two share proof memory", info.updKind, info.cell, info.kind)
+			}
+			return d
+		case "update-result-differs":
+			other := "?"
+			for i := s + 1; i < r.Line-1; i++ {
+				if lines[i].Ev == "M" && lines[i].Fn == ev.Fn && lines[i].call != nil {
+					other = lines[i].call.kind
+					break
+				}
+			}
+			ks := []string{other, info.kind}
+			sort.Strings(ks)
+			d.key = fmt.Sprintf("update-result-differs/%s/%s", info.fn, strings.Join(ks, "-vs-"))
+			d.what = fmt.Sprintf("UpdateElementProof on element %d (%s) leaves the %s copy with other proof contents than the %s copy, although both held the same contents before and the same update was applied: what is reached depends on how the value was obtained", info.cell, info.note, info.kind, other)
+			return d
+		}
 	}
 	switch name {
 	case "input-modified-during-call", "input-modified-by-concurrent-call":
@@ -898,11 +1070,28 @@ func rerun(ci *caseInfo) (map[string]bool, error) {
 		return nil, err
 	}
 	rec := &recorder{}
-	if _, err := runCase(rec, in, last.Verdict == "accept", ci.g, rand.New(rand.NewSource(int64(ci.n))), ci); err != nil {
+	cs, err := runCase(rec, in, last.Verdict == "accept", ci.g, rand.New(rand.NewSource(int64(ci.n))), ci)
+	if err != nil {
 		return nil, err
 	}
-	lines := fileByCase(rec.events)
 	out := map[string]bool{}
+	cb := newCopyBook()
+	probeReal(cb, in, ci)
+	if last.Verdict == "accept" && cs.verdict == "ok" {
+		key, err := contentKey(in)
+		if err != nil {
+			return nil, err
+		}
+		if _, err := runUpdates(rec, sim, in, key, ci, cb); err != nil {
+			return nil, err
+		}
+	}
+	for k, f := range cb.found {
+		if f.Direct && !(f.Class == "shares" && strings.Contains(f.Op, "by contract")) {
+			out[k] = true
+		}
+	}
+	lines := fileByCase(rec.events)
 	for _, r := range goCheck(lines) {
 		if strings.HasPrefix(r.Msg, "V:") {
 			out[describe(lines, r).key] = true
@@ -960,10 +1149,74 @@ func selfTest(c *vlib.Ctx, lines []Event) {
 				c.Infra("self test: TLC and the harness's transcription disagree on the corrupted log")
 			}
 			c.Cov("selftest_corrupted_log_rejected", len(rj))
+			selfTestUpdate(c, lines)
 			return
 		}
 	}
 	c.Infra("self test: no segment with two ends of one key")
+}
+
+// selfTestUpdate corrupts an update segment: the content one copy is left with, and the digest of a neighbouring
+// cell in the audit that follows an update; the specification must reject exactly there.
+func selfTestUpdate(c *vlib.Ctx, lines []Event) {
+	for s := 0; s < len(lines); s++ {
+		if lines[s].Ev != "seg" || !strings.Contains(lines[s].Case, "/upd-") {
+			continue
+		}
+		e := s + 1
+		for e < len(lines) && lines[e].Ev != "seg" {
+			e++
+		}
+		seg := append([]Event{}, lines[s:e]...)
+		if len(goCheck(seg)) > 0 {
+			continue
+		}
+		byFn := map[string][]int{}
+		for i, ev := range seg {
+			if ev.Ev == "M" {
+				byFn[ev.Fn] = append(byFn[ev.Fn], i)
+			}
+		}
+		for _, idx := range byFn {
+			if len(idx) < 2 {
+				continue
+			}
+			second := idx[1]
+			// an audit of a neighbouring cell right after some update
+			aud := -1
+			for i := 1; i < len(seg); i++ {
+				if seg[i].Ev == "A" && seg[i-1].Ev == "M" && seg[i].Mem != seg[i-1].Mem {
+					aud = i
+					break
+				}
+			}
+			if aud < 0 {
+				break
+			}
+			mut := append([]Event{}, seg...)
+			mut[second].Res += "~" // this copy reaches other contents
+			mut[aud].D += "~"      // a neighbouring cell changed under the update
+			rj, err := tlcRejects(c, mut, false)
+			if err != nil {
+				c.Fatal("self test (update): %v", err)
+			}
+			got := map[string]bool{}
+			for _, r := range rj {
+				got[fmt.Sprintf("%d %s", r.Line, strings.SplitN(r.Msg, " ", 2)[0])] = true
+			}
+			for _, w := range []string{fmt.Sprintf("%d V:update-result-differs", second+1), fmt.Sprintf("%d V:input-changed-when-quiet", aud+1)} {
+				if !got[w] {
+					c.Infra("self test (update): corrupting the log did not produce %q (got %v)", w, rj)
+				}
+			}
+			if !sameRejects(rj, goCheck(mut)) {
+				c.Infra("self test (update): TLC and the harness's transcription disagree on the corrupted log")
+			}
+			c.Cov("selftest_corrupted_update_log_rejected", len(rj))
+			return
+		}
+	}
+	c.Infra("self test (update): no update segment with two copies updated under one key")
 }
 
 // ---------------------------------------------------------------------------
@@ -990,6 +1243,7 @@ func replay(c *vlib.Ctx) {
 	switch f.Case.Kind {
 	case "copy":
 		cb := newCopyBook()
+		cb.onlyElements = true
 		probeElements(cb)
 		reportCopies(c, cb)
 	case "case":
